@@ -574,6 +574,15 @@ func init() {
 			e.guards[field] = guardInfo{lock: lock, name: a[2].(StringV).s}
 			return nil
 		},
+		// vSleep(d): time passes (concrete clock only); natively a real sleep
+		hname("vSleep"): func(e *Engine, fn *ssa.Function, a []Value) Value {
+			d := a[0].(*Term)
+			if !d.IsConst() {
+				e.fail("vSleep with a symbolic duration")
+			}
+			e.clockSkew += d.val
+			return nil
+		},
 		hname("vMustNotBlock"): func(e *Engine, fn *ssa.Function, a []Value) Value {
 			e.noBlockMsg = a[0].(StringV).s
 			return nil
